@@ -2,7 +2,7 @@ SPECIFICATION Spec
 CONSTANTS
   MaxLen = 4
   MaxW = 6
-  ValA = {0, 1, 2}
+  ValA <- SignedA
   ValB = {0, 1, 2}
   WithNull = TRUE
   ElemA <- ElemADef
